@@ -253,7 +253,7 @@ def m_validate_row(ex, st, fn, args, kw):
     ex.obligations.append(Obligation("protocol/validate_row-only-inside-header-limit-window-each-row-once-in-order", st.pc, z3.And(r_val(st, k), G(st, "last_validated") < k), "protocol", props=["C07", "C20", "C04"]))
     ex.obligations.append(Obligation("protocol/validate_row-receives-the-current-raw-row", st.pc, lift(args[0]).z == st.ghost["raw"].at(k - 1), "protocol", props=["C04", "C06", "C07"]))
     st.ghost["last_validated"] = Sym(INT, k)
-    ex.obligations.append(Obligation("location/line-is-row-number-minus-1-at-validation", st.pc, lift(st.heap[st.ghost["loc"].oid]["_line"]).z == k - 1, "post", props=["C04"]))
+    ex.obligations.append(Obligation("location/line-is-row-number-minus-1-at-validation", st.pc, lift(st.heap[st.ghost["loc"].oid]["_line"]).z == k - 1, "post", props=["C04", "C05"]))
     ex.obligations.append(Obligation("protocol/all-checks-reset-before-first-validated-row", st.pc, G(st, "resets_done") == G(st, "m"), "protocol", props=["C08", "C20", "C05"]))
     for s2, b in ex.fork(st, Sym(BOOL, ok(k))):
         if b: yield s2, None
@@ -312,19 +312,19 @@ N = "len(raw)"
 def rows_contract():
     return Contract("validio.Reader.rows", setup_rows,
         returns=[  # generator exhausted
-            Clause("out_rows == outc(%s)" % N, "yielded-rows-are-exactly-the-spec-sequence", props=["C04", "C06", "C07"]),
+            Clause("out_rows == outc(%s)" % N, "yielded-rows-are-exactly-the-spec-sequence", props=["C04", "C06", "C07", "C18"]),
             Clause("this.accepted_rows_count == cnt_acc(%s)" % N, "accepted-counter", props=["C06"]),
             Clause("implies(mode != 'raise', this.rejected_rows_count == cnt_rej(%s) and this.accepted_rows_count + this.rejected_rows_count == max0(%s - header))" % (N, N), "counters-add-up-to-data-rows", props=["C06"]),
-            Clause("implies(mode == 'raise', norej(%s))" % N, "raise-mode-exhausts-only-without-rejection", props=["C06"]),
+            Clause("implies(mode == 'raise', norej(%s))" % N, "raise-mode-exhausts-only-without-rejection", props=["C06", "C18"]),
             Clause("implies(mode == 'yield', n_err == cnt_rej(%s))" % N, "yield-mode-one-error-per-rejected-row", props=["C06"]),
             Clause("implies(mode != 'yield', n_err == 0)", "no-error-objects-outside-yield-mode", props=["C06"]),
-            Clause("loc._line == %s" % N, "location-advanced-once-per-raw-row", props=["C04"]),
+            Clause("loc._line == %s" % N, "location-advanced-once-per-raw-row", props=["C04", "C05"]),
             Clause("resets_done == m", "every-check-reset-exactly-once", props=["C08", "C20"])],
-        raises={"DataError": [Clause("fault or mode == 'raise'", "a-row-rejection-propagates-only-in-raise-mode", props=["C06"]),
-                              Clause("implies(not fault, 0 <= _i1 and _i1 < len(raw) and rejd(_i1 + 1) and norej(_i1))", "raised-at-the-first-rejected-row", props=["C06", "C07"]),
+        raises={"DataError": [Clause("fault or mode == 'raise'", "a-row-rejection-propagates-only-in-raise-mode", props=["C06", "C18"]),
+                              Clause("implies(not fault, 0 <= _i1 and _i1 < len(raw) and rejd(_i1 + 1) and norej(_i1))", "raised-at-the-first-rejected-row", props=["C06", "C07", "C18"]),
                               Clause("out_rows == outc(_i1)", "rows-before-the-stop-were-yielded", props=["C06"]),
-                              Clause("implies(not fault, exc._location._line == _i1)", "error-located-at-the-rejected-row", props=["C04", "C06"]),
-                              Clause("implies(fault, exc is fault_exc and _i1 == fail_at)", "a-container-fault-propagates-unchanged-in-every-mode-at-the-row-where-it-happened", props=["C06"])]},
+                              Clause("implies(not fault, exc._location._line == _i1)", "error-located-at-the-rejected-row", props=["C04", "C06", "C05"]),
+                              Clause("implies(fault, exc is fault_exc and _i1 == fail_at)", "a-container-fault-propagates-unchanged-in-every-mode-at-the-row-where-it-happened", props=["C06", "C18"])]},
         loops={
             0: LoopSpec(invariants=["resets_done == _i0"], havoc={"check": CHECK}, ghost_havoc={"resets_done": INT}, match="self.cid.check_map.values()"),
             1: LoopSpec(match="enumerate(self._raw_rows(), 1)", invariants=["loc._line == _i1", "out_rows == outc(_i1)", "this.accepted_rows_count == cnt_acc(_i1)",
@@ -708,11 +708,60 @@ class WriterOracle(Oracle):
     def describe(self, c): return {"format": c[0], "header": c[1], "rows": [self.POOL[i] for i in c[2]], "call": "validio.Writer(cid, StringIO).write_row(...) per row, close(), then validio.rows(cid, output)"}
 
 
+class WriterFileOracle(Oracle):
+    """writer bound to a *path* (the writer opens and owns the file, in the CID's encoding): unencodable rows are rejected without a trace,
+    the file read back from the path under the same CID returns the accepted rows"""
+    bound = "1-2 rows of two text cells over {ab, e-acute, euro, a CR b, a LF b, quote, comma} x encodings {utf-8, ascii, latin-1} x delimited (line delimiter any/lf/cr/crlf) and fixed (lf/crlf/cr/none), written to and read back from a file"
+    VALUES = ["ab", "\u00e9", "\u20ac", "a\rb", "a\nb", 'a"b', "a,b"]
+    def cases(self, ctx):
+        rows1 = [[a, b] for a in self.VALUES for b in self.VALUES]
+        for fmt in ("delimited", "fixed"):
+            for ld in (("any", "lf", "cr", "crlf") if fmt == "delimited" else ("lf", "crlf", "cr", "none")):
+                for enc in ("utf-8", "ascii", "latin-1"):
+                    for i, r in enumerate(rows1):
+                        yield (fmt, ld, enc, [r])
+                        if i % 5 == 0 or ctx.thorough:
+                            for r2 in rows1[::(3 if ctx.thorough else 9)]: yield (fmt, ld, enc, [r, r2])
+    def check(self, c):
+        import tempfile, os, shutil
+        from cutplace import interface, validio, errors
+        fmt, ld, enc, rows = c
+        if fmt == "delimited": text = "d,format,delimited\nd,encoding,%s\nd,line delimiter,%s\nf,a,,x,...3\nf,b,,x,...3\n" % (enc, ld)
+        else: text = "d,format,fixed\nd,encoding,%s\nd,line delimiter,%s\nf,a,,x,3\nf,b,,x,3\n" % (enc, ld)
+        d = tempfile.mkdtemp(prefix="c14_"); path = os.path.join(d, "out.txt")
+        try:
+            cid = interface.create_cid_from_string(text)
+            accepted = []
+            with validio.Writer(cid, path) as w:
+                for r in rows:
+                    try: "".join(r).encode(enc); encodable = True
+                    except UnicodeEncodeError: encodable = False
+                    try: w.write_row(list(r)); obs = True
+                    except errors.DataError: obs = False
+                    except Exception as e: return {"expected": "write or DataError", "observed": repr(e)}
+                    if obs != encodable: return {"expected": "row %r %s" % (r, "written" if encodable else "rejected (not encodable in %s)" % enc), "observed": "written" if obs else "rejected"}
+                    if obs: accepted.append(r)
+            sep = {"any": "\r\n" if fmt == "delimited" else os.linesep, "lf": "\n", "cr": "\r", "crlf": "\r\n", "none": ""}[ld]
+            raw = open(path, "rb").read().decode(enc)
+            if fmt == "fixed":
+                want_text = "".join("".join(x.ljust(3) for x in r) + sep for r in accepted)
+                if raw != want_text: return {"expected": "file content %r (exactly the accepted rows, nothing for a rejected row)" % want_text, "observed": repr(raw)}
+            elif not accepted and raw != "": return {"expected": "an empty file (every row was rejected)", "observed": repr(raw)}
+            try: back = list(validio.rows(interface.create_cid_from_string(text), path))
+            except errors.DataError as e: return {"expected": "the written file validates again", "observed": "%s (file %r)" % (e, raw)}
+            want = [[x.ljust(3) for x in r] for r in accepted] if fmt == "fixed" else accepted
+            return None if back == want else {"expected": "read back %r" % want, "observed": "%r (file %r)" % (back, raw)}
+        finally:
+            shutil.rmtree(d, ignore_errors=True)
+    def describe(self, c): return {"format": c[0], "line delimiter": c[1], "encoding": c[2], "rows": c[3], "call": "validio.Writer(cid, path).write_row per row, close, validio.rows(cid, path)"}
+
+
 def unit_writer_sweep():
     def run(ctx):
-        o = WriterOracle()
+        o = WriterOracle(); f = WriterFileOracle()
         limit = 10**9 if ctx.thorough else o.quick_cases
-        return [sweep("C14/sweep/write then read back", itertools.islice(o.cases(ctx), limit), o.check, "bounded", o.bound, describe=o.describe, function="validio.Writer + rowio writers + validio.rows", unit="C14.sweep")]
+        return [sweep("C14/sweep/write then read back", itertools.islice(o.cases(ctx), limit), o.check, "bounded", o.bound, describe=o.describe, function="validio.Writer + rowio writers + validio.rows", unit="C14.sweep"),
+                sweep("C14/sweep/write to a file in the CID's encoding, read the file back", f.cases(ctx), f.check, "bounded", f.bound, describe=f.describe, function="validio.Writer + rowio writers + validio.rows", unit="C14.sweep")]
     return NativeUnit("C14.sweep", "bounded sweep: Writer emits exactly the accepted rows, nothing for rejected ones, output validates again (incl. after an earlier read with the same CID)", ["C14", "C08"], run, kind="bounded")
 
 
@@ -856,12 +905,12 @@ def unit_raw_rows():
                     f = st.ghost["fnl"]
                     ok_ = name == "fixed_rows" and len(a) == 4 and a[0] is src and a[1] is df["_encoding"] and f is not None and a[2] is f[0] and f[1] is st.ghost["cid"] and a[3] is df["_line_delimiter"]
                 return Sym(BOOL, z3.BoolVal(bool(ok_)))
-            out.append({"contract": Contract("validio.Reader._raw_rows", setup, returns=[Clause(dispatched, "rows-come-from-the-reader-of-the-CID's-format-with-the-format's-sheet-/-encoding-/-widths-/-line-delimiter", props=["C16", "C17", "C13", "C12", "C15"])],
+            out.append({"contract": Contract("validio.Reader._raw_rows", setup, returns=[Clause(dispatched, "rows-come-from-the-reader-of-the-CID's-format-with-the-format's-sheet-/-encoding-/-widths-/-line-delimiter", props=["C16", "C17", "C13", "C12", "C15", "C14"])],
                                              raises={}, expect=["return"], n_loops=0, modifies=[]),
                         "callees": {"rowio.excel_rows": rec("excel_rows"), "rowio.ods_rows": rec("ods_rows"), "rowio.delimited_rows": rec("delimited_rows"), "rowio.fixed_rows": rec("fixed_rows"),
                                     "interface.field_names_and_lengths": ModelContract(m_fnl)}, "label": "format " + fmt})
         return out
-    return ProofUnit("validio.Reader._raw_rows", "Reader._raw_rows: dispatch on the data format, passing the format's own settings", ["C16", "C17", "C13", "C12", "C15"], make, None)
+    return ProofUnit("validio.Reader._raw_rows", "Reader._raw_rows: dispatch on the data format, passing the format's own settings", ["C16", "C17", "C13", "C12", "C15", "C14"], make, None)
 
 
 # ---------------------------------------------------------------- Reader.__init__ / validate_rows, Writer.write_rows / close
